@@ -370,6 +370,9 @@ func (f *Frame) execInstr(in ssa.Instruction, st *State) bool {
 		for _, r := range x.Results {
 			vals = append(vals, f.get(r))
 		}
+		if f.contract != nil && f.caller == nil && len(f.contract.RetAssert) > 0 {
+			f.returnAsserts(st, x, vals)
+		}
 		f.rets = append(f.rets, retRec{st.clone(), vals})
 		return true
 	case *ssa.Panic:
@@ -412,6 +415,44 @@ func (f *Frame) execInstr(in ssa.Instruction, st *State) bool {
 		return false
 	}
 	panic(unsupported("instruction %T in %s", in, f.fn.Name()))
+}
+
+// returnAsserts: intermediate assertions attached to a return statement are proved in the state
+// reaching it (loop variables of the enclosing iteration are in scope) and then assumed.
+func (f *Frame) returnAsserts(st *State, ret *ssa.Return, vals []*Val) {
+	c := f.c
+	var rets []*ssa.Return
+	for _, b := range f.fn.Blocks {
+		for _, in := range b.Instrs {
+			if r, ok := in.(*ssa.Return); ok {
+				rets = append(rets, r)
+			}
+		}
+	}
+	sort.Slice(rets, func(i, j int) bool { return rets[i].Pos() < rets[j].Pos() })
+	k := -1
+	for i, r := range rets {
+		if r == ret {
+			k = i
+		}
+	}
+	cls := f.contract.RetAssert[k]
+	if len(cls) == 0 {
+		return
+	}
+	sc := &Scope{c: c, fr: f, st: st, old: f.entry, vars: map[string]*Val{}, at: ret.Block(), anyLoop: true, pkg: f.fn.Pkg}
+	if len(vals) == 1 {
+		bindResults(sc, f.fn, vals[0])
+	} else if len(vals) > 1 {
+		bindResults(sc, f.fn, &Val{K: KTuple, F: vals, Ty: f.fn.Signature.Results()})
+	}
+	for _, cl := range cls {
+		where := fmt.Sprintf("return%d", k)
+		t := f.evalSpecBool(sc.asGoal(), cl, where)
+		o := c.Oblige("assert", where+"."+cl.Name, st.reach, t, c.W.fset.Position(ret.Pos()), "intermediate assertion: "+cl.Src)
+		o.Inputs = f.inputTerms()
+		c.Assume(st.reach, f.evalSpecBool(sc.asAssumption(), cl, where), "intermediate assertion "+cl.Name+" (proved as "+o.Name+")")
+	}
 }
 
 func deref(t types.Type) types.Type {
